@@ -94,8 +94,13 @@ def join(rec, files, case_dir, probes, res, w0, forced_key=None):
             rec.ev('c02:probes_not_reached')
             continue
         w = dict(w0, probe_line=p['line'], tag=p['tag'], text=files['main.py'])
-        ok, defs = apimon.call(rec, 'infer', s.infer, p['line'], 0, witness=w)
+        with apimon.LimitWatch() as lw:
+            ok, defs = apimon.call(rec, 'infer', s.infer, p['line'], 0, witness=w)
         if not ok:
+            continue
+        if lw.hits:
+            # the query ran into one of jedi's documented give-up limits: outside the quantifier
+            rec.ev('c02:probes_inconclusive_give_up_limit_hit')
             continue
         got = set()
         for d in defs:
